@@ -314,6 +314,8 @@ def run(tier, seed):
         c, h, form = runs[rj["run"]]
         cov["model_drift"].append({"cache_trace_rejected": True, "hist": h, "form": form, "matched": rj["matched"], "total": rj["total"]})
     # self-test of the trace binding
+    rejruns = {rj["run"] for rj in rejected}
+    tr = [x for x in tr if x["_i"] not in rejruns]
     if tr:
         import copy
         a = copy.deepcopy(tr[0]["ev"])
